@@ -5,6 +5,7 @@ import NmVerif.Lemmas.Addressing
   sum over the last axes) on shapes / indices written as `prefix ++ suffix`.
 -/
 namespace NmVerif
+open NmVerif.MB
 open Linalg
 
 /-! ### offsets of appended indices; reshape -/
